@@ -54,6 +54,7 @@ func init() {
 				// encapsulation premise: no exported function hands out a pointer into a Point
 				c.addAll(a.RFresh())
 				c.ruleCtor(cfg)
+				c.ruleShape(cfg)
 				ctor := []string{"(*Point).SetBytes", "(*Point).SetExtendedCoordinates"}
 				c.ruleAccept(cfg, ctor)
 				c.ruleSetterAtomic(cfg, nameSet(ctor))
